@@ -147,11 +147,14 @@ CHECKS = {
     technique='contract-based deductive verification: nested loop invariants over the generation step, call-back argument obligations, z3; delegation-binding analysis'),
  'C13': dict(
     category='other',
-    text='Unbounded only for the adapter _find_trans_and_rec_delays_SIS_ (user rules asked with the right arguments in the right order, dict = neighbours -> answers). Deciding part, bounded (labelled): fast_nonMarkov_SIS against a plain reference semantics (recover exactly `duration` after each infection, attempt each neighbour at '
-         'every listed delay, infect iff susceptible then) on 400 random graphs <= 6 nodes with table-driven, tie-free durations and delay lists (sorted and unsorted, both calling styles, silent and short-lived nodes, tmax placed exactly on an event time); node histories must coincide.',
-    design_ref='DESIGN.md section 5 "C13"',
-    note='Equality in law with fast_SIS under exponential rules is not decided. No unbounded contract for _process_trans_SIS_nonMarkov_.',
-    technique='contract-based deductive verification of the delay adapter (z3); bounded check of the real simulator against an independent reference semantics (stand-in for the handler contract, which is out of reach)'),
+    text='Unbounded (own VC generator + z3, sidecar contracts on the real functions): the adapter _find_trans_and_rec_delays_SIS_; the event handler _process_trans_SIS_nonMarkov_ '
+         '(one event: infect iff susceptible, rec_time = time + the user\'s duration, recovery queued iff < tmax, per neighbour exactly one event whose head/payload are listed attempt times in order '
+         'containing every admissible one, the source chain continued with the attempts after rec_time[target], nothing else touched; sorted()/filter/slice reasoning through named proof steps); '
+         'the queue rule (lemma unit event_step_nmSIS: one loop step preserves the global invariant GI_NM); fast_nonMarkov_SIS itself (argument checks, initial events, loop body, rule binding, returned rows). '
+         'Bounded (labelled): equality of whole histories with a plain reference semantics on 400 random graphs <= 6 nodes with table-driven, tie-free durations and delay lists.',
+    design_ref='DESIGN.md section 5 "C13", 9.3',
+    note='Equality in law with fast_SIS under exponential rules is not decided. The composition of the per-event contracts into whole-history equality is only observed by the bounded stand-in.',
+    technique='contract-based deductive verification (handler contract with ghost payload map, opaque abbreviations, queue-rule lemma, z3); bounded check of the real simulator against an independent reference semantics for whole histories'),
  'C15': dict(
     category='proof',
     text='Gillespie_complex_contagion: loop invariant "rates[u] = rate_function(G,u,status,parameters) for every node with positive rate, total = their sum" established by the '
